@@ -20,11 +20,22 @@ from usim._core.loop import Interrupt, Loop
 from usim._primitives.context import CancelScope, ScopeClosed
 
 
-class KeyErr(KeyError):
+class _EqualByClass:
+    """the exceptions the puppets raise are DISTINCT objects that compare EQUAL within their class (like exceptions
+    built from dataclasses): a failure report that merges or finds children by equality instead of identity is noticed"""
+
+    def __eq__(self, other):
+        return type(other) is type(self)
+
+    def __hash__(self):
+        return 13
+
+
+class KeyErr(_EqualByClass, KeyError):
     pass
 
 
-class IndexErr(IndexError):
+class IndexErr(_EqualByClass, IndexError):
     pass
 
 
